@@ -20,7 +20,7 @@ SEPS = [(), (("G", 2, "scaffold"),), (("G", 7, "contig"),), (("G", 200, "scaffol
 
 
 def scaffolds_a(tier):
-    lens = [1, 2, 3, 4, 5, 9] if tier == "thorough" else [1, 2, 3, 5, 9]
+    lens = [1, 2, 3, 4, 5, 9, 12] if tier == "thorough" else [1, 2, 3, 4, 5, 9]
     out = []
     for style in ("tpf", "fasta"):
         for k in (1, 2, 3):
@@ -59,7 +59,7 @@ class C08(Check):
         "floor/ceil rounding x absent sub-texel scaffolds x map order x painted; output compared with the input itself"
     )
     rule = (
-        "case = (input assembly, null map). input: scaffold_1 = every 1-3 contig scaffold over lengths {1,2,3,5,9} ({1,2,3,4,5,9} thorough), separators "
+        "case = (input assembly, null map). input: scaffold_1 = every 1-3 contig scaffold over lengths {1,2,3,4,5,9} (+12 thorough), separators "
         "{none, 2 scaffold, 7 contig, 200 scaffold}, all-forward or alternating strands (TPF naming) / FASTA naming, x scaffold_2 from 6 small "
         "scaffolds or none; bpt {1,1.5,2,3.3,4}; per scaffold texel count floor or ceil (0 = absent, only possible for sub-texel scaffolds), bait "
         "[1, floor(n*bpt)]; both map orders; all unpainted / all painted. Precondition: last contig of every mapped scaffold >= bpt. Oracle "
